@@ -411,6 +411,10 @@ def decrypt(token, resolver, sender_resolver=None, policy: str = "all", allow=No
         return Result("REJECT", r.reason, r.klass)
 
 
+def _not_json(word):
+    raise ValueError(f"{word} is not JSON")
+
+
 def _header_names_disjoint(token) -> None:
     """RFC 7516, section 5.2 step 4 / section 7.2.1: the same Header Parameter name MUST NOT occur in distinct JSON object values that
     together comprise the JOSE Header (a receiver that follows the text refuses such a JWE)"""
@@ -469,7 +473,7 @@ def _decrypt(token, resolver, sender_resolver, policy, allow, inflate_limit, str
         raise Reject("malformed", "segment not base64url")
     if octets:
         try:
-            protected = json.loads(octets)
+            protected = json.loads(octets, parse_constant=_not_json)   # RFC 8259 has no NaN / Infinity
         except (ValueError, RecursionError):
             raise Reject("malformed", "protected header not JSON")
         if not isinstance(protected, dict):
